@@ -45,10 +45,38 @@ def jwsCritRules (ms : List Jws.Member) (h : Jws.Hdr) (c : Content) : Option Str
     then some "critical_label_not_present"            -- present = the protected header has a member of that name
   else none
 
+/-! what the envelope specification defines, written out here once. The model uses the tables regenerated from the code; the
+    monitors use these (`Tie.Constants` says they are equal — on a tree where they are not, the monitor still expects what the
+    specification says). -/
+def jwsSpecHeaders : List String :=
+  ["alg", "crit", "cty", "io.cncf.notary.authenticSigningTime", "io.cncf.notary.expiry", "io.cncf.notary.signingScheme",
+   "io.cncf.notary.signingTime"]
+def coseSpecIntLabels : List Int := [1, 2, 3]
+def coseSpecTextLabels : List String :=
+  ["io.cncf.notary.authenticSigningTime", "io.cncf.notary.expiry", "io.cncf.notary.signingScheme", "io.cncf.notary.signingTime"]
+
+def coseIsSpecLabel (l : Cose.Label) : Bool :=
+  match l with
+  | .int i => coseSpecIntLabels.contains i
+  | .text s => coseSpecTextLabels.contains s
+
+/-- the non-specification members, last of each name (`Jws.extMembers` over the specification's list) -/
+def jwsExtMembersSpec (ms : List Jws.Member) : List Jws.Member :=
+  Jws.extMembers.go (ms.filter (fun m => !jwsSpecHeaders.contains m.key))
+
+/-- the non-specification entries as attributes (`Cose.extAttrsOf` over the specification's lists) -/
+def coseExtAttrsSpec (e : Cose.Env) : List Attr :=
+  (e.prot.filter (fun en => !coseIsSpecLabel en.label)).map
+    (fun en => { key := Cose.toAKey en.label, critical := (Cose.critLabels e.prot).contains en.label, value := en.tok })
+
+/-- `Jws.extAttrsOf` over the specification's list -/
+def jwsExtAttrsSpec (ms : List Jws.Member) (h : Jws.Hdr) : List Attr :=
+  (jwsExtMembersSpec ms).map (fun m => { key := .text m.key, critical := h.crit.contains m.key, value := m.decoded })
+
 /-- expected extended attributes: one per non-specification name (last member), with the exact
     value token `exact m` -/
 def jwsExpectedAttrs (ms : List Jws.Member) (h : Jws.Hdr) (valueOf : Jws.Member → String) : List Attr :=
-  (Jws.extMembers ms).map (fun m => { key := .text m.key, critical := h.crit.contains m.key, value := valueOf m })
+  (jwsExtMembersSpec ms).map (fun m => { key := .text m.key, critical := h.crit.contains m.key, value := valueOf m })
 
 def sameAttrSet (a b : List Attr) : Bool := a.all (fun x => b.contains x) && b.all (fun x => a.contains x) && a.length == b.length
 
@@ -96,7 +124,7 @@ def jws (prop : String) (e : Jws.Env) (exact : Jws.Member → String) (ci : Chai
       | some (ms, h) =>
         let m := Jws.contentOf e ms h c.alg
         if Props.signedPart { c with extAttrs := [] } != Props.signedPart { m with extAttrs := [] } then some "content_is_not_the_decoding_of_the_signed_bytes"
-        else if !sameAttrSet c.extAttrs m.extAttrs then some "attributes_are_not_the_decoding_of_the_signed_bytes"
+        else if !sameAttrSet c.extAttrs (jwsExtAttrsSpec ms h) then some "attributes_are_not_the_decoding_of_the_signed_bytes"
         else if c.chain != e.x5c.filterMap id then some "chain_not_the_envelope's"
         else none
   | "C02" =>
@@ -117,7 +145,7 @@ def jws (prop : String) (e : Jws.Env) (exact : Jws.Member → String) (ci : Chai
     match decoded with
     | none => some "content_returned_but_signed_header_does_not_decode"
     | some (ms, h) =>
-      if c.extAttrs.any (fun a => match a.key with | .text k => Generated.jwsHeaderKeys.contains k | .int _ => true) then some "specification_header_among_attributes"
+      if c.extAttrs.any (fun a => match a.key with | .text k => jwsSpecHeaders.contains k | .int _ => true) then some "specification_header_among_attributes"
       else if !(h.crit.all fun l => (ms.map (·.key)).contains l) then some "critical_label_names_no_present_header"
       else attrsRules (jwsExpectedAttrs ms h exact) c.extAttrs
   | _ => none
@@ -174,7 +202,7 @@ def cose (prop : String) (e : Cose.Env) (ci : ChainInfo) (viaVerify : Bool) (c :
           match coseExpiryRules e c with
           | some x => some x
           | none =>
-            if !sameAttrSet c.extAttrs (Cose.extAttrsOf e) then some "attributes_are_not_the_decoding_of_the_signed_bytes"
+            if !sameAttrSet c.extAttrs (coseExtAttrsSpec e) then some "attributes_are_not_the_decoding_of_the_signed_bytes"
             else if c.chain != Cose.chainOf e then some "chain_not_the_envelope's"
             else none
   | "C02" =>
@@ -193,10 +221,10 @@ def cose (prop : String) (e : Cose.Env) (ci : ChainInfo) (viaVerify : Bool) (c :
         | none => coseCritRules e c
   | "C13" =>
     if c.extAttrs.any (fun a => match a.key with
-        | .int i => Generated.coseSystemIntLabels.contains i
-        | .text s => Generated.coseSystemTextLabels.contains s) then some "specification_header_among_attributes"
+        | .int i => coseSpecIntLabels.contains i
+        | .text s => coseSpecTextLabels.contains s) then some "specification_header_among_attributes"
     else if !((Cose.critLabels e.prot).all fun l => (Cose.get e.prot l).isSome) then some "critical_label_names_no_present_header"
-    else attrsRules (Cose.extAttrsOf e) c.extAttrs
+    else attrsRules (coseExtAttrsSpec e) c.extAttrs
   | _ => none
 
 end NotationCore.EnvMonitor
